@@ -55,15 +55,19 @@ func embeddedNames() ([]string, error) {
 
 // newPlatform calls the library constructor with panics turned into a value.
 func newPlatform(f interface{}, variant string, opts ...util.Option) (p *platform.Platform, err error, pnc interface{}) {
+	return newPlatformH(f, variant, "host", opts...)
+}
+
+func newPlatformH(f interface{}, variant, host string, opts ...util.Option) (p *platform.Platform, err error, pnc interface{}) {
 	defer func() {
 		if x := recover(); x != nil {
 			pnc = x
 		}
 	}()
 	if variant != "" {
-		p, err = platform.NewPlatformVariant(f, variant, "host", opts...)
+		p, err = platform.NewPlatformVariant(f, variant, host, opts...)
 	} else {
-		p, err = platform.NewPlatform(f, "host", opts...)
+		p, err = platform.NewPlatform(f, host, opts...)
 	}
 	return
 }
